@@ -366,7 +366,7 @@ func checkC12(c C12Case) (vs []*Violation) {
 		if strings.Contains(dump, "sync.(*RWMutex)") || strings.Contains(dump, "chan send") || strings.Contains(dump, "chan receive") {
 			addV(viol("", "goroutines did not finish within 60s; dump shows blocked goroutines:\n%s", truncate([]byte(dump), 3000)))
 		} else {
-			addV(viol("", "goroutines did not finish within 60s (inconclusive)"))
+			inconclusive("C12", "TestC12", "goroutines did not finish within 60s and the dump shows no blocked goroutine")
 		}
 	}
 	nontrivial := atomic.LoadInt64(&overlapped) > 0 || c.Stepped != nil
